@@ -16,7 +16,7 @@ LEAN_MODULES = ["RtoscModel.Props.C19"]
 THEOREMS = ["Rtosc.Auto.emit_in_range_right_type", "Rtosc.Auto.emit_monotone",
             "Rtosc.Auto.default_gain_linear", "Rtosc.Auto.learn_queue_refines",
             "Rtosc.Auto.unbound_controller_serves_head", "Rtosc.Auto.learn_order_preserved",
-            "Rtosc.Auto.bound_cc_drives_its_slot"]
+            "Rtosc.Auto.bound_cc_drives_its_slot", "Rtosc.Auto.ieee_model_laws"]
 HARNESS = {"src": ["auto.cpp"], "exclude": ["src/cpp/automations.cpp"], "deps": ["common.h"]}
 STATELESS = True          # one op line = one whole history, lines are independent
 RULE = ("one op line = one whole history over a fresh AutomationMgr (2..6 slots x 1..3 sub-automations, 1..40 "
@@ -29,20 +29,23 @@ ASSUMPTIONS = ["floats are finite (no NaN/infinity, no overflow); parameter rang
                "integer parameters have integer-valued bounds below 2^24",
                "MIDI channel >= 0 and 0 <= controller number < 128",
                "createBinding is called with a slot index inside the manager (the code does not check it)",
-               "monotonicity / range theorems assume order laws of IEEE arithmetic (rounding is monotone and fixes "
-               "representable values), stated as hypotheses (structure Rtosc.Auto.Laws), never as axioms",
+               "monotonicity / range theorems are stated for any arithmetic satisfying the order laws Rtosc.Auto.Laws (a "
+               "hypothesis, never an axiom); the laws are proved for exact rationals and for the IEEE-754 rounding model "
+               "the driver runs (ieee_model_laws); what stays assumed is that the compiled float code is that model "
+               "(checked bit for bit by the correspondence stream) and that libm's logf/expf are monotone",
                "log-scale parameters: expf/logf are libm's; the emitted value is checked against the property with "
                "relative tolerance 1e-5 by the oracle, the model predicts the argument of expf bit-exactly"]
 TRUSTED = ["hand-written model RtoscModel/Auto.lean of AutomationMgr (createBinding, setSlotSubPath, updateMapping, "
            "setSlot, setSlotSub, clearSlot, clearSlotSub, setSlotSubGain/Offset, handleMidi, setparameternumber, getnrpn)",
            "RtoscModel/AutoFloat.lean: IEEE-754 binary32/binary64 round-to-nearest-even over Rat (validated bit-for-bit "
-           "against the compiled code by the correspondence stream)",
+           "against the compiled code by the correspondence stream; its monotonicity is proved, Proofs/AutoFloatLemmas.lean)",
            "libm logf/expf (log-scale parameters)"]
 LEVEL_TEXT = ("Lean theorems over all operation histories of any length and any number of slots: the learn-queue "
               "numbering refines an abstract FIFO queue and keeps the request order (learn_queue_refines, "
               "learn_order_preserved), a bound controller drives exactly its slot (bound_cc_drives_its_slot), every "
               "emitted message has the bound address and type and a clamped value (emit_in_range_right_type), emission is "
-              "monotone for non-negative gain (emit_monotone) under explicit order laws of float arithmetic, and the "
+              "monotone for non-negative gain (emit_monotone) under explicit order laws of float arithmetic that are proved "
+              "for the IEEE rounding model the driver runs (ieee_model_laws), and the "
               "default mapping is exactly linear over Rat (default_gain_linear); the model is compared bit-for-bit "
               "(IEEE rounding modelled exactly) with the compiled implementation on thousands of generated histories "
               "per run, and the property is evaluated directly on the implementation's output by an independent "
